@@ -113,19 +113,20 @@ type Viol struct {
 }
 
 type env struct {
-	sc        *Scenario
-	mu        sync.Mutex
-	calls     []*call
-	gauge     int
-	maxGauge  int
-	returned  bool
-	retErr    error
-	retOut    []int
-	callerCtx context.Context
-	viols     []Viol
-	reqPar    int
-	failTimes []time.Time
-	panicked  interface{}
+	sc                 *Scenario
+	mu                 sync.Mutex
+	calls              []*call
+	gauge              int
+	maxGauge           int
+	returned           bool
+	callerDoneAtReturn bool // the caller's own context was done when the call returned
+	retErr             error
+	retOut             []int
+	callerCtx          context.Context
+	viols              []Viol
+	reqPar             int
+	failTimes          []time.Time
+	panicked           interface{}
 }
 
 func (e *env) viol(kind, what string, params map[string]interface{}) {
@@ -233,6 +234,7 @@ func (e *env) invoke(ctx context.Context) {
 	}
 	e.mu.Lock()
 	e.returned = true
+	e.callerDoneAtReturn = e.callerCtx != nil && e.callerCtx.Err() != nil
 	e.retErr = err
 	e.retOut = out
 	if e.gauge != 0 {
@@ -364,7 +366,13 @@ func (e *env) finalMonitors() {
 	}
 	count := map[int]int{}
 	anyFail := false
-	callerCancelledSeen := e.callerCtx != nil && e.callerCtx.Err() != nil
+	// the caller's context as it was when the call returned (timed scenarios look at the result a virtual
+	// day later, when the one-hour deadline of the caller's context has passed in any case); a call that
+	// panicked out or never returned: as it is now
+	callerCancelledSeen := e.callerDoneAtReturn
+	if e.panicked != nil {
+		callerCancelledSeen = e.callerCtx != nil && e.callerCtx.Err() != nil
+	}
 	startedCancelled := 0
 	for _, c := range e.calls {
 		count[c.idx]++
